@@ -7,8 +7,8 @@ package h3file
 import (
 	"context"
 	"fmt"
-	"os"
 	"math/rand/v2"
+	"os"
 	"sort"
 	"strconv"
 	"strings"
@@ -39,23 +39,23 @@ type WOp struct {
 }
 
 type Cfg struct {
-	Sim          simrt.Config   `json:"sim"`
-	Files        int            `json:"files"`
-	Ops          []WOp          `json:"ops"`
-	Sync         bool           `json:"sync_mode"`
-	AsyncIvl     time.Duration  `json:"async_interval"`
-	MaintIvl     time.Duration  `json:"maintenance_interval"`
-	WatchWrites  bool           `json:"watch_writes"`
-	Workers      int            `json:"workers"`
-	ReadBuf      int            `json:"read_buffer"`
-	Capacity     int            `json:"capacity"`
-	SingleProc   bool           `json:"single_proc"`
-	Pool         string         `json:"pool"`
-	Sink         simsink.Config `json:"sink"`
-	Kills        []time.Duration `json:"kills"`    // simulated instants of kill
-	Down         []time.Duration `json:"down"`     // how long file.d stays down after each kill
-	Power        bool           `json:"power"`     // kills are power losses for file.d's own writes
-	Bound        time.Duration  `json:"bound"`
+	Sim         simrt.Config    `json:"sim"`
+	Files       int             `json:"files"`
+	Ops         []WOp           `json:"ops"`
+	Sync        bool            `json:"sync_mode"`
+	AsyncIvl    time.Duration   `json:"async_interval"`
+	MaintIvl    time.Duration   `json:"maintenance_interval"`
+	WatchWrites bool            `json:"watch_writes"`
+	Workers     int             `json:"workers"`
+	ReadBuf     int             `json:"read_buffer"`
+	Capacity    int             `json:"capacity"`
+	SingleProc  bool            `json:"single_proc"`
+	Pool        string          `json:"pool"`
+	Sink        simsink.Config  `json:"sink"`
+	Kills       []time.Duration `json:"kills"` // simulated instants of kill
+	Down        []time.Duration `json:"down"`  // how long file.d stays down after each kill
+	Power       bool            `json:"power"` // kills are power losses for file.d's own writes
+	Bound       time.Duration   `json:"bound"`
 }
 
 func (c *Cfg) SimCfg() *simrt.Config { return &c.Sim }
@@ -273,47 +273,47 @@ func (h *H) Shrink(cc core.Cfg) []core.Cfg {
 // ---- run ----
 
 type lineInfo struct {
-	id        int
-	stream    string
-	file      int
-	phys      string // physical file (by inode) it was written to
-	inode     uint64
-	endOff    int64
-	writtenAt time.Duration
-	complete  bool
-	delivered int
-	text      string
+	id            int
+	stream        string
+	file          int
+	phys          string // physical file (by inode) it was written to
+	inode         uint64
+	endOff        int64
+	writtenAt     time.Duration
+	complete      bool
+	delivered     int
+	text          string
 	truncatedAway bool
 }
 
 type run struct {
-	cfg     *Cfg
-	o       *core.Outcome
-	fs      *simos.FS
-	lines   map[int]*lineInfo
-	order   []*lineInfo
-	curIno  []uint64 // current inode of each logical log
-	rotN    []int
-	pend    map[int]*lineInfo // logical file -> pending partial line
-	sizes   map[uint64]int64
-	incarnation int
-	commitsSeen int
-	sends   int
-	killsDone int
-	nontrivialKill bool
-	lastWrite time.Duration
-	jobsAtKill []map[uint64]map[string]int64
-	savedAtKill []map[uint64]map[string]int64
-	byEvent map[*pipeline.Event]int
-	diedMsgs []string
-	acked map[int]bool
-	unackedAtKill int
-	truncations int
-	truncMultiStream bool
-	plugins []pipeline.AnyPlugin
-	pendingSend map[sendKey][]int
-	offsetsAtKill []string
-	passed map[passKey]bool
+	cfg                   *Cfg
+	o                     *core.Outcome
+	fs                    *simos.FS
+	lines                 map[int]*lineInfo
+	order                 []*lineInfo
+	curIno                []uint64 // current inode of each logical log
+	rotN                  []int
+	pend                  map[int]*lineInfo // logical file -> pending partial line
+	sizes                 map[uint64]int64
+	incarnation           int
+	commitsSeen           int
+	sends                 int
+	killsDone             int
+	nontrivialKill        bool
+	lastWrite             time.Duration
+	jobsAtKill            []map[uint64]map[string]int64
+	savedAtKill           []map[uint64]map[string]int64
+	byEvent               map[*pipeline.Event]int
+	diedMsgs              []string
+	acked                 map[int]bool
+	unackedAtKill         int
+	truncations           int
+	truncMultiStream      bool
+	plugins               []pipeline.AnyPlugin
+	pendingSend           map[sendKey][]int
+	offsetsAtKill         []string
+	passed                map[passKey]bool
 	rereadSameIncarnation bool
 }
 
